@@ -1410,7 +1410,7 @@ struct array : static_array<T, D, Alloc> {
 			adl_fill_n(this->base_, this->num_elements(), elem);
 		} else {
 			this->clear();
-			(*this).array::layout_t::operator=(layout_t<D>{extensions});
+			this->layout_mutable() = typename array::layout_t{extensions};
 			this->base_ = this->static_::array_alloc::allocate(this->num_elements(), nullptr);
 			adl_alloc_uninitialized_fill_n(this->alloc(), this->base_, this->num_elements(), elem);
 		}
